@@ -93,10 +93,10 @@ theorem inv3_frame (s s' : St) (h : Inv3 s) (es : List Ev)
       exact ⟨⟨c, k, List.mem_cons_of_mem _ h1⟩, ⟨r, List.mem_cons_of_mem _ h2⟩⟩
 
 
-theorem enq_inv3 (fixed : Bool) (idle : Bool) (queue : List Item) (g : Glob) (id : Option Nat) (it : Item) (ops : List Op)
+theorem enq_inv3 (fixed : Bool) (idle : Bool) (queue : List Item) (rg : Bool) (g : Glob) (id : Option Nat) (it : Item) (ops : List Op)
     (rest : List Frame) (log : List Ev) (dt : Nat)
-    (h : Inv3 { tr := { idle := idle, queue := queue }, g := g, th := { stack := .enq id it ops :: rest, log := log } }) :
-    Inv3 (step fixed { tr := { idle := idle, queue := queue }, g := g, th := { stack := .enq id it ops :: rest, log := log } } dt) := by
+    (h : Inv3 { tr := { idle := idle, queue := queue, raisedG := rg }, g := g, th := { stack := .enq id it ops :: rest, log := log } }) :
+    Inv3 (step fixed { tr := { idle := idle, queue := queue, raisedG := rg }, g := g, th := { stack := .enq id it ops :: rest, log := log } } dt) := by
   obtain ⟨nb, cl, oc, os, oe, en, it1, it2, sk⟩ := h
   simp only [readyOf, pendOf] at it1 it2
   obtain ⟨c0, k0, hs0⟩ := it2 it rfl
@@ -148,7 +148,7 @@ macro "frame3_tac" h:ident es:term : tactic => `(tactic| (
 
 theorem step_inv3 (fixed : Bool) (s : St) (dt : Nat) (h1 : Inv1 s) (h2 : Inv2 s) (h : Inv3 s) : Inv3 (step fixed s dt) := by
   obtain ⟨o, hs, hw⟩ := h1
-  rcases s with ⟨⟨idle, queue⟩, g, ⟨stack, log⟩⟩
+  rcases s with ⟨⟨idle, queue, rg⟩, g, ⟨stack, log⟩⟩
   simp only at hs hw
   cases hs with
   | nil => frame3_tac h []
@@ -167,10 +167,11 @@ theorem step_inv3 (fixed : Bool) (s : St) (dt : Nat) (h1 : Inv1 s) (h2 : Inv2 s)
           case sched l b => frame3_tac h [Ev.sched l (g.clock + dt) (g.clock + dt) .imm]
           case schedRel l d b => frame3_tac h [Ev.sched l (g.clock + dt + max d 0) (g.clock + dt) .rel]
           case schedAbs l t b => frame3_tac h [Ev.sched l t (g.clock + dt) .abs]
+          case raise_ => frame3_tac h []
     | enq id it ops =>
       cases id with
       | some i => simp [isMain] at hm
-      | none => exact enq_inv3 fixed _ _ _ _ _ _ _ _ dt h
+      | none => exact enq_inv3 fixed _ _ _ _ _ _ _ _ _ dt h
     | drain ph r => simp [isMain] at hm
   | drain ph ready ops hre =>
     cases ph with
@@ -244,6 +245,8 @@ theorem step_inv3 (fixed : Bool) (s : St) (dt : Nat) (h1 : Inv1 s) (h2 : Inv2 s)
         · apply inv3_frame _ _ h []
           all_goals (try simp [step, thStep, hd, pendOf, readyOf, isStartOrEnq])
     | final => frame3_tac h [Ev.final (queue.map (·.id))]
+    | abort => frame3_tac h [Ev.final (queue.map (·.id))]
+    | waiting => frame3_tac h [Ev.woke]
   | inAct i ops ready mops =>
     cases ops with
     | nil => frame3_tac h [Ev.fin i]
@@ -254,7 +257,10 @@ theorem step_inv3 (fixed : Bool) (s : St) (dt : Nat) (h1 : Inv1 s) (h2 : Inv2 s)
       case sched l b => frame3_tac h [Ev.sched l (g.clock + dt) (g.clock + dt) .imm]
       case schedRel l d b => frame3_tac h [Ev.sched l (g.clock + dt + max d 0) (g.clock + dt) .rel]
       case schedAbs l t b => frame3_tac h [Ev.sched l t (g.clock + dt) .abs]
-  | inEnq i it ops ready mops => exact enq_inv3 fixed _ _ _ _ _ _ _ _ dt h
+      case raise_ =>
+        frame3_tac h [Ev.raised i]
+        intro a ha; exact Or.inr ha
+  | inEnq i it ops ready mops => exact enq_inv3 fixed _ _ _ _ _ _ _ _ _ dt h
 
 /-! ## the combined invariant of the single-thread machine -/
 
@@ -308,6 +314,9 @@ theorem wb_cons_some (e : Ev) (l : List Ev) (o : Option Nat) (h : wb (e :: l) = 
   case fin b => cases hw : wb l with
     | none => simp [hw] at h
     | some o' => exact ⟨o', rfl⟩
+  case raised b => cases hw : wb l with
+    | none => simp [hw] at h
+    | some o' => exact ⟨o', rfl⟩
   all_goals exact ⟨o, h⟩
 
 theorem wb_suffix (l r : List Ev) (o : Option Nat) (h : wb (l ++ r) = some o) : ∃ o', wb r = some o' := by
@@ -317,9 +326,9 @@ theorem wb_suffix (l r : List Ev) (o : Option Nat) (h : wb (l ++ r) = some o) : 
     obtain ⟨o', h'⟩ := wb_cons_some e (l ++ r) o h
     exact ih o' h'
 
-/-- if action `a` is open after `pre` and no longer open after `l ++ pre`, then `a` returned in `l`. -/
+/-- if action `a` is open after `pre` and no longer open after `l ++ pre`, then `a` returned (or raised) in `l`. -/
 theorem wb_open_closed (l pre : List Ev) (a : Nat) (o : Option Nat) (h : wb (l ++ pre) = some o)
-    (hp : wb pre = some (some a)) (ho : o ≠ some a) : Ev.fin a ∈ l := by
+    (hp : wb pre = some (some a)) (ho : o ≠ some a) : Ev.fin a ∈ l ∨ Ev.raised a ∈ l := by
   induction l generalizing o with
   | nil => simp only [List.nil_append] at h; rw [hp] at h; cases h; exact absurd rfl ho
   | cons e l ih =>
@@ -330,7 +339,7 @@ theorem wb_open_closed (l pre : List Ev) (a : Nat) (o : Option Nat) (h : wb (l +
       | none => simp [hw] at h
       | some o' =>
         cases o' with
-        | none => exact List.mem_cons_of_mem _ (ih none hw (by simp))
+        | none => exact (ih none hw (by simp)).imp (List.mem_cons_of_mem _) (List.mem_cons_of_mem _)
         | some y => simp [hw] at h
     case fin x =>
       simp only [List.cons_append, wb] at h
@@ -344,12 +353,27 @@ theorem wb_open_closed (l pre : List Ev) (a : Nat) (o : Option Nat) (h : wb (l +
           by_cases hxy : y = x
           · subst hxy
             by_cases hya : y = a
-            · subst hya; exact List.mem_cons_self
-            · exact List.mem_cons_of_mem _ (ih (some y) hw (by simp [hya]))
+            · subst hya; exact Or.inl List.mem_cons_self
+            · exact (ih (some y) hw (by simp [hya])).imp (List.mem_cons_of_mem _) (List.mem_cons_of_mem _)
+          · simp [hxy] at h
+    case raised x =>
+      simp only [List.cons_append, wb] at h
+      cases hw : wb (l ++ pre) with
+      | none => simp [hw] at h
+      | some o' =>
+        cases o' with
+        | none => simp [hw] at h
+        | some y =>
+          simp only [hw] at h
+          by_cases hxy : y = x
+          · subst hxy
+            by_cases hya : y = a
+            · subst hya; exact Or.inr List.mem_cons_self
+            · exact (ih (some y) hw (by simp [hya])).imp (List.mem_cons_of_mem _) (List.mem_cons_of_mem _)
           · simp [hxy] at h
     all_goals
       simp only [List.cons_append, wb] at h
-      exact List.mem_cons_of_mem _ (ih o h ho)
+      exact (ih o h ho).imp (List.mem_cons_of_mem _) (List.mem_cons_of_mem _)
 
 /-- number of action bodies (of scheduled items) currently executing on the stack -/
 def nRunning : List Frame → Nat
